@@ -210,7 +210,7 @@ def gen_case(rng, tier):
     rows = [[p, f, x, rng.randint(1, 1000) / 4.0, i] for i, (p, f, x) in enumerate(rows)]
     sub_mode = rng.choice(['own', 'own', 'explicit', 'user', 'user'])
     case = dict(kind=kind, edge=edge, ndim=ndim, rows=rows, order=order,
-                index=rng.choice(['default', 'default', 'frame', 'multi', 'other', 'shuffled_range']),
+                index=rng.choice(['default', 'default', 'frame', 'multi', 'other', 'shuffled_range', 'frame_stale', 'multi_stale']),
                 pos_dtype='int' if integer else 'float',
                 frame_dtype='float' if rng.random() < 0.05 else 'int',
                 pos_columns=(rng.sample(POSN[ndim], ndim) if rng.random() < 0.3 else None),
@@ -284,6 +284,12 @@ def build_table(case):
         df.index = pd.Index(df['frame'].values, name='frame')
     elif idx == 'multi':
         df.index = pd.MultiIndex.from_arrays([df['frame'].values, df['particle'].values], names=['frame', 'particle'])
+    elif idx == 'frame_stale' and len(df):
+        # index NAMED 'frame' whose labels are an earlier numbering (a sub-movie cut out and renumbered through the column):
+        # the frame numbers are the column's, the index is only a label
+        df.index = pd.Index(df['frame'].values.max() - df['frame'].values + 3, name='frame')
+    elif idx == 'multi_stale':
+        df.index = pd.MultiIndex.from_arrays([df['frame'].values + 5, df['particle'].values], names=['frame', 'particle'])
     elif idx == 'other':
         df.index = pd.Index(np.arange(len(df)) * 3 + 7, name='foo')
     elif idx == 'shuffled_range':
